@@ -77,6 +77,7 @@ where
                 dirty: false,
                 observer,
                 sources: SourceSet::new(),
+                release: None,
             }));
             (owner, inner, rx)
         }
@@ -159,6 +160,7 @@ where
                 dirty: false,
                 observer,
                 sources: SourceSet::new(),
+                release: None,
             }));
 
             let initial_value = owner
